@@ -1,8 +1,10 @@
 """Self-test of the checker: every check must be silent on the unchanged tree, must fire on each seeded change of its
-property (seeded/<id>/patch.diff) and must re-detect each repaired defect when its `fix:` commit is reverted.
+property (seeded/<id>/patch.diff), must re-detect each repaired defect when its `fix:` commit is reverted, and must stay silent
+on every behaviour-preserving refactoring under controls/<id>/patch.diff (all 20 checks are run against each of them).
 All work happens on scratch copies of /repo; /repo itself is never touched.
   ./vcheck selftest            everything
-  ./vcheck selftest C05 C07    only these properties"""
+  ./vcheck selftest C05 C07    only these properties
+  ./vcheck selftest controls [C02-R1 ..]   only the negative controls (all checks against each)"""
 import json, os, re, shutil, subprocess, sys, tempfile
 from . import engine
 
@@ -22,7 +24,40 @@ def _run(prop, repo, ev):
     return r.returncode, rules
 
 
+def controls(ids, ev, props=None):
+    """all checks silent on every behaviour-preserving refactoring"""
+    cdir = os.path.join(VERIF, "controls")
+    bad = 0; n = 0
+    allp = props or ["C%02d" % i for i in range(1, 21)]
+    for cid in sorted(os.listdir(cdir)) if os.path.isdir(cdir) else []:
+        if ids and cid not in ids: continue
+        patch = os.path.join(cdir, cid, "patch.diff")
+        if not os.path.exists(patch): continue
+        s = _scratch()
+        try:
+            a = subprocess.run(["git", "apply", patch], cwd=s, capture_output=True, text=True)
+            if a.returncode != 0:
+                print("control %s: patch does not apply to the current tree (skipped)" % cid); continue
+            fired = {}
+            for p in allp:
+                rc, rules = _run(p, s, ev); n += 1
+                if rc != 0: fired[p] = rules
+            print("control %-8s %s" % (cid, "silent (%d checks)" % len(allp) if not fired else "FALSE ALARM %s" % fired), flush=True)
+            bad += bool(fired)
+        finally:
+            shutil.rmtree(s, ignore_errors=True)
+    return n, bad
+
+
 def selftest(args, tier="quick"):
+    if args and args[0] == "controls":
+        ev = tempfile.mkdtemp(prefix="vrf-selfev.", dir="/var/tmp")
+        try:
+            n, bad = controls([a for a in args[1:] if not re.fullmatch(r"C\d\d", a)], ev, [a for a in args[1:] if re.fullmatch(r"C\d\d", a)] or None)
+        finally:
+            shutil.rmtree(ev, ignore_errors=True)
+        print("selftest controls: %d runs, %d controls with a false alarm" % (n, bad))
+        return 1 if bad else 0
     props = [a for a in args if re.fullmatch(r"C\d\d", a)] or ["C%02d" % i for i in range(1, 21)]
     ev = tempfile.mkdtemp(prefix="vrf-selfev.", dir="/var/tmp")
     bad = 0; n = 0
